@@ -28,8 +28,12 @@ class BuilderSite:
         return None
 
 
+UNRESOLVED = []
+
+
 def builder_sites(cx):
     out = []
+    del UNRESOLVED[:]
     for fn in cx.crate.fns:
         if len(fn.module.path) < 2 or fn.module.path[0] != 'trait_handlers':
             continue
@@ -42,6 +46,14 @@ def builder_sites(cx):
             r = strip_refs(ev.recv)
             struct = None
             name = None
+            # a builder bound to a variable first (`let b = TypeAttributeBuilder {..}; b.build_from_attributes(..)`)
+            hops = 0
+            while r['k'] == 'Path' and len(r['path']['segs']) == 1 and hops < 4:
+                d = ev.scope.lookup(r['path']['s'])
+                if d is None or d.kind != 'let' or d.init is None or d.assigns:
+                    break
+                r = strip_refs(d.init)
+                hops += 1
             if r['k'] == 'Struct':
                 struct = r
                 name = r['path']['segs'][-1]['id']
@@ -50,8 +62,10 @@ def builder_sites(cx):
                 name = r['path']['segs'][-1]['id']
                 segs = [s['id'] for s in r['path']['segs']]
             else:
+                UNRESOLVED.append((fn, ev))
                 continue
             if not name.endswith('AttributeBuilder'):
+                UNRESOLVED.append((fn, ev))
                 continue
             res = cx.crate.resolve(fn.module, segs)
             trait = None
@@ -199,6 +213,8 @@ def check(cx, facts, rep, models):
     sites = builder_sites(cx)
     if len(sites) < 80:
         rep.broken.append('only %d attribute-builder call sites found (≈92 on the pinned tree)' % len(sites))
+    for ufn, uev in UNRESOLVED:
+        rep.bad('FLAGS', ufn.qname, 'builder=%s' % es(uev.recv)[:40], 'UNANALYSABLE: the receiver of `%s` is not an attribute-builder literal (or a variable initialised with one): its switches cannot be read' % uev.method, ufn.file, uev.line)
     for s in sites:
         where = s.fn.qname
         f = s.fn
